@@ -16,6 +16,7 @@ partial def parseConn (j : Json) : Except String Conn := do
   | "noconn" => .ok .noconn
   | "bundle" => do .ok (.bundle (← getStr j "n"))
   | "bref" => do .ok (.bref (← getStr j "root") (← (← getArr j "path").toList.mapM (·.getStr?)))
+  | "orphan" => do .ok (.orphan (← getNat j "w"))
   | "anon" => do
     let fs ← (← getArr j "fields").toList.mapM (fun f => do
       let a ← f.getArr?
@@ -55,7 +56,9 @@ def parseModule (j : Json) : Except String Design.Module := do
   let bundles ← (← getArr j "bundles").toList.mapM (fun b => do
     pure ((← getStr b "n"), (← getStr b "of"), (← getBool b "port")))
   let insts ← (← getArr j "insts").toList.mapM parseInst
-  .ok ⟨← getStr j "name", sigs, bundles, insts⟩
+  let labelled := (j.getObjVal? "label").isOk
+  let label ← getOptStr j "label"
+  .ok { name := ← getStr j "name", sigs := sigs, bundles := bundles, insts := insts, label := label, labelled := labelled }
 
 def parseDesign (j : Json) : Except String Design := do
   let bundles ← (← getArr j "bundles").toList.mapM (fun b => do
@@ -117,7 +120,9 @@ def handle (op : String) (j : Json) : Except String Json := do
     match j.getObjVal? "design" with
     | .ok dj =>
       let d ← parseDesign dj
-      out := out ++ [("src", resJson (semSrc d top)), ("src_devices", devJson (Design.devices d top []))]
+      let r := semSrc d top
+      let devs := match r with | .ok _ => Design.devices d top [] | .error _ => []
+      out := out ++ [("src", resJson r), ("src_devices", devJson devs)]
     | .error _ => pure ()
     match j.getObjVal? "pkg" with
     | .ok pj =>
